@@ -211,6 +211,17 @@ func (env *SpecEnv) eval(e *Expr) *SV {
 		return env.field(a, e.Name, e)
 	case "index":
 		a := env.eval(e.Args[0])
+		if a.Ty != nil && a.T != nil {
+			if vc, pc, ks, vs, ok := env.x.mapComps(a.Ty); ok {
+				k := env.eval(e.Args[1])
+				if k.T == nil || k.T.S != ks {
+					stale("map key sort in %s", e)
+				}
+				el := a.Ty.Underlying().(*types.Map).Elem()
+				val, _ := env.x.mapLookup(env.heap, vc, pc, ks, vs, a.T, k.T, el)
+				return &SV{T: val, Ty: el}
+			}
+		}
 		i := env.evalInt(e.Args[1])
 		return env.index(a, i, e)
 	case "slice":
@@ -453,6 +464,9 @@ func (env *SpecEnv) evalBinary(e *Expr) *SV {
 		return &SV{T: Eq(a.T, b.T)}
 	case "!=":
 		return &SV{T: Neq(a.T, b.T)}
+	}
+	if a.T.S == SStr && b.T.S == SStr && op == "+" {
+		return &SV{T: env.x.strCat(a.T, b.T), Ty: ty}
 	}
 	if a.T.S.K != KInt {
 		stale("operator %s on sort %s in %s", op, a.T.S, e)
@@ -734,15 +748,11 @@ func (env *SpecEnv) call(e *Expr) *SV {
 		a := env.eval(e.Args[0])
 		tn := e.Args[1].Name
 		var ty types.Type
-		switch tn {
-		case "int":
-			ty = types.Typ[types.Int]
-		case "int64":
-			ty = types.Typ[types.Int64]
-		case "bool":
-			ty = types.Typ[types.Bool]
-		case "uint64":
-			ty = types.Typ[types.Uint64]
+		if obj, ok := types.Universe.Lookup(tn).(*types.TypeName); ok {
+			ty = obj.Type()
+		}
+		switch {
+		case ty != nil:
 		default:
 			ptr := strings.HasPrefix(tn, "P_")
 			base := strings.TrimPrefix(tn, "P_")
@@ -774,17 +784,11 @@ func (env *SpecEnv) call(e *Expr) *SV {
 			return &SV{T: And(Neq(a.T, IntLit(0)), Eq(x.dynType(a.T), x.typeID(tn)))}
 		}
 		var ty types.Type
-		switch tn {
-		case "int":
-			ty = types.Typ[types.Int]
-		case "int64":
-			ty = types.Typ[types.Int64]
-		case "bool":
-			ty = types.Typ[types.Bool]
-		case "string":
-			ty = types.Typ[types.String]
-		case "float64":
-			ty = types.Typ[types.Float64]
+		if obj, ok := types.Universe.Lookup(tn).(*types.TypeName); ok {
+			ty = obj.Type()
+		}
+		switch {
+		case ty != nil:
 		default:
 			ptr := strings.HasPrefix(tn, "P_")
 			base := strings.TrimPrefix(tn, "P_")
